@@ -359,3 +359,15 @@ benign("c01-bdf-too-small-flag", "C01", (BDF, _REJ, "        let too_small = sel
 mutant("c05-bdf-too-small-flag-swapped", "C05", "R5.", (BDF, _REJ, "        let too_small = self.dt.real() < self.dt_min.real();\n        if !too_small {\n            self.prev_values.clear();\n        }\n        Err(if !too_small {\n            IVPStatus::Failure(IVPError::MinimumTimeDeltaExceeded)\n        } else {\n            IVPStatus::Redo\n        })\n    }\n"))
 benign("c02-bdf-accept-partial-cmp", "C02", (BDF, "        if error <= self.tolerance.real() {\n            self.state = higher_step;", "        if matches!(error.partial_cmp(&self.tolerance.real()), Some(std::cmp::Ordering::Less | std::cmp::Ordering::Equal)) {\n            self.state = higher_step;"))
 mutant("c02-bdf-accept-partial-cmp-greater", "C02", "R2.", (BDF, "        if error <= self.tolerance.real() {\n            self.state = higher_step;", "        if matches!(error.partial_cmp(&self.tolerance.real()), Some(std::cmp::Ordering::Greater | std::cmp::Ordering::Equal)) {\n            self.state = higher_step;"))
+
+# ---- seed round 8: complex-scalar blind spots and a table digit seen from C09
+mutant("c14-laguerre-stop-on-real-part", "C14", "R14.10/Polynomial::roots/residual-test-bounds-the-modulus", (PM, "            if val.abs() < tol {", "            if val.re.abs() < tol {"))
+benign("c14-laguerre-stop-componentwise", "C14", (PM, "            if val.abs() < tol {", "            if val.abs() < tol && val.re.abs() < tol && val.im.abs() < tol {"))
+mutant("c08-newton-stop-on-dot", "C08", "R8.2/roots::newton/success", (RM, "                if adjustment.norm() <= tol {", "                if adjustment.dot(&adjustment).real() <= tol * tol {"))
+benign("c08-newton-stop-on-norm-squared", "C08", (RM, "                if adjustment.norm() <= tol {", "                if adjustment.norm() <= tol && adjustment.norm_squared() <= tol * tol {"))
+mutant("c17-linear-fit-modulus-squared", "C17", "R17.1/optimize::linear_fit", ("src/optimize/mod.rs", "        sum_x_sq += x.powi(2);", "        sum_x_sq += N::from_real(x.modulus_squared());"))
+mutant("c09-legendre12-weight-digits", "C09", "R10.3", (T, "(0.1252334085114689, 0.24914704581340288)", "(0.1252334085114689, 0.24914704518340288)"))
+
+# ---- fixes a3d1b02 / 7aac680 inverted: the first step of the Broyden solves is not tested, a zero step reaches the 0/0 update
+mutant("c08-secant-first-step-untested", "C08", "R8.5/roots::secant/zero-step-division", (RM, "    if shift.norm().abs() <= tol {\n        return Ok(guess);\n    }\n\n    while n < n_max {", "    while n < n_max {"))
+mutant("c05-bdf-secant-first-step-untested", "C05", "R3.8/BDFSolver::secant/zero-step-division", (BDF, "        if shift.norm() <= self.tolerance.real() {\n            return Ok(guess);\n        }\n\n        while n < 1000 {", "        while n < 1000 {"))
